@@ -23,7 +23,7 @@ D1 = {"n": 6, "tag": 141}
 D2 = {"n": 21, "tag": 142}
 K, K2, K3 = "k-main", "k-oneshot", "k-linked"
 
-ACTIONS = ["W1", "W2", "W3", "WH", "WBAD", "WBADI", "WMULTI", "WOTHER", "WHDEC", "W0", "WOVF", "WOVFK", "R", "RH", "ST", "M", "L", "E", "CP", "CPU", "HL", "HLDHL", "RM", "RMH", "RF", "CL", "LK", "DFLIP", "DTRUNC", "DUTF8", "DTORN", "DSHORT", "DBADSRI", "DDIR"]
+ACTIONS = ["W1", "W2", "W3", "WH", "WBAD", "WBADI", "WMULTI", "WOTHER", "WHDEC", "W0", "WOVF", "WOVFK", "R", "RH", "ST", "STPART", "M", "L", "E", "CP", "CPU", "HL", "HLDHL", "RM", "RMH", "RF", "CL", "LK", "DFLIP", "DTRUNC", "DUTF8", "DTORN", "DSHORT", "DBADSRI", "DDIR"]
 MIXED = ["W1", "W2", "WH", "R", "M", "L", "RM", "RF", "DUTF8", "ST", "W3", "W0"]
 
 
@@ -119,6 +119,19 @@ def do_action(srv, side, cache, aux, act):
     if act == "ST":
         rep, d = wr.do_read(srv, cache, "stream" + suf, key=K, buf=4)
         return [rep]
+    if act == "STPART":
+        # a streaming reader whose final check is called after only a prefix (here: 2 bytes, then nothing) has been read
+        out_ = []
+        for nread in (2, 0):
+            ro = srv.call({"op": ("sr_" if s else "ar_") + "open", "cache": cache, "key": K})
+            if "ok" not in ro:
+                out_.append(ro)
+                continue
+            h_ = ro["ok"]["h"]
+            if nread:
+                srv.call({"op": "r_read", "h": h_, "n": nread})
+            out_.append(srv.call({"op": "r_check", "h": h_}))
+        return out_
     if act == "M":
         return [srv.call({"op": "metadata" + suf, "cache": cache, "key": K}), srv.call({"op": "index_find" if s else "index_find_async", "cache": cache, "key": K2})]
     if act == "L":
